@@ -226,26 +226,41 @@ def biclique_shard(combine, transforms, T):
     return tally
 
 
+W2U = torch.tensor([[2.0, 1.0], [1.0, 3.0], [1.0, 1.0]])  # lateral 2 -> 3
+W3U = torch.tensor([[3.0, 0.0, 1.0], [1.0, 2.0, 0.0]])  # feedback 3 -> 2
+
+
+def rdense(B, W):
+    return LinearDense((W.shape[1],), (W.shape[0],), DT, synapse=syn("delta"), batch_size=B, weight_init=lambda w: W.clone())
+
+
+def rlif(B, n, refrac):
+    return LIF((n,), DT, rest_v=0.0, reset_v=-0.5, thresh_v=1.0, refrac_t=refrac, time_constant=2.0, batch_size=B)
+
+
 def recurrent_shard(variant, T):
     tally = Tally()
     hs, xs = inputs_for(T)
     B = len(hs)
-    trainable, transforms = variant
-    case = {"layer": "RecurrentSerial", "trainable_feedback": trainable, "transforms": transforms, "T": T}
+    trainable, transforms = variant[:2]
+    unequal = len(variant) > 2 and variant[2]  # feedback group of 3 neurons behind a feed-forward group of 2
+    case = {"layer": "RecurrentSerial", "trainable_feedback": trainable, "transforms": transforms, "T": T, "group_sizes": [2, 3 if unequal else 2]}
+    nfbsz = 3 if unequal else 2
+    Wl, Wf = (W2U, W3U) if unequal else (W2, W3)
     kw = {}
     if transforms:
         kw = dict(feedfwd_out_transform=lambda x: x * 2.0, feedback_out_transform=lambda x: -x, lateral_out_transform=lambda x: x + 0.5)
 
     def mk():
-        return RecurrentSerial(dense(B, W1), dense(B, W2), dense(B, W3), lif(B, 1.0), lif(B, 2.0), trainable_feedback=trainable, **kw)
+        return RecurrentSerial(rdense(B, W1), rdense(B, Wl), rdense(B, Wf), rlif(B, 2, 1.0), rlif(B, nfbsz, 2.0), trainable_feedback=trainable, **kw)
 
     try:
         layer = mk()
     except Exception as ex:
         tally.violation(f"exception:construct:RecurrentSerial:{type(ex).__name__}", case, repr(ex))
         return tally
-    ff, lat, fb, nff, nfb = dense(B, W1), dense(B, W2), dense(B, W3), lif(B, 1.0), lif(B, 2.0)
-    prev_fb = torch.zeros(B, 2, dtype=torch.bool)
+    ff, lat, fb, nff, nfb = rdense(B, W1), rdense(B, Wl), rdense(B, Wf), rlif(B, 2, 1.0), rlif(B, nfbsz, 2.0)
+    prev_fb = torch.zeros(B, nfbsz, dtype=torch.bool)
     ok = True
     for t in range(T):
         tally.add("steps")
@@ -274,6 +289,36 @@ def recurrent_shard(variant, T):
     return tally
 
 
+def neuron_clear_shard(cname, T):
+    """Serial(dense, <every shipped neuron class>) with a refractory period of 3 steps: clear() at every position of every input
+    history, then the replay must equal a freshly built layer (voltage, refractory time and spikes all back to initial)."""
+    from checks.c03_neurons import HP, CLS
+    tally = Tally()
+    hs, xs = inputs_for(T)
+    B = len(hs)
+    case = {"layer": f"Serial[{cname}]", "neuron": cname, "refrac_t": 3.0, "T": T}
+
+    def mk():
+        return Serial(rdense(B, W1 * 3.0), CLS[cname]((2,), DT, refrac_t=3.0, batch_size=B, **HP[cname][0]))
+
+    try:
+        L = mk()
+        L.eval()
+        nspk = 0
+        for t in range(T):
+            tally.add("steps")
+            nspk += int(L(xs[t]).sum())
+    except Exception as ex:
+        tally.violation(f"exception:forward:Serial[{cname}]:{type(ex).__name__}", case, repr(ex))
+        return tally
+    if nspk:
+        tally.mark("nontrivial", ("neuron-clear", cname))
+    tally.add("spikes_before_clear", nspk)
+    clear_replay(tally, case, mk, lambda L, x: (L(x), L.neuron.voltage.clone(), L.neuron.refrac.clone()), xs, T, None)
+    tally.add("histories", B)
+    return tally
+
+
 def run(rep):
     quick = rep.tier == "quick"
     T = 4 if quick else 6
@@ -289,6 +334,10 @@ def run(rep):
     for trainable in (False, True):
         for tr in (False, True):
             jobs.append((recurrent_shard, ((trainable, tr), T)))
+            jobs.append((recurrent_shard, ((trainable, tr, True), T)))
+    from checks.c03_neurons import CLS as NEURON_CLS
+    for cname in NEURON_CLS:
+        jobs.append((neuron_clear_shard, (cname, T)))
     tally = run_shards(jobs, seed=rep.seed)
     rep.tally.merge(tally)
     c = tally.counts
@@ -308,7 +357,7 @@ def run(rep):
         "rule": "every boolean input history of length T (as batch) x every layer topology / combine mode / transform choice x every clear "
                 "position; non-trivial = distinct topologies",
     }
-    return rep.finish(cov, floors={"transitions": 150, "distinct_nontrivial": 20})
+    return rep.finish(cov, floors={"transitions": 150, "distinct_nontrivial": 40})
 
 
 def replay(case):
